@@ -169,9 +169,39 @@ def caught_in(exc: Optional[BaseException], root: str) -> Optional[str]:
     return "<harness>:" + code.co_name
 
 
+class _TornFile:
+    """File object handed to tealer by the k-th write-mode open of a `TORN` I/O fault: the first
+    write stores the first half of its data on disk and then fails with ENOSPC (a torn write:
+    the half-written file stays in the export directory for whatever runs next)."""
+
+    def __init__(self, f: Any, shim: "IoShim", site: str) -> None:
+        self._f = f
+        self._shim = shim
+        self._site = site
+
+    def write(self, data: Any) -> Any:
+        if self._shim.fired:
+            return self._f.write(data)
+        self._shim.fired = True
+        self._shim.fired_at = "torn_write@" + self._site
+        self._f.write(data[: len(data) // 2])
+        self._f.flush()
+        raise _make_exc("ENOSPC")
+
+    def __enter__(self) -> "_TornFile":
+        return self
+
+    def __exit__(self, *a: Any) -> None:
+        self._f.close()
+
+    def __getattr__(self, name: str) -> Any:
+        return getattr(self._f, name)
+
+
 class IoShim:
     """Pass-through shim for builtins.open / os.makedirs as seen from tealer code; raises OSError
-    on the k-th call issued by a frame whose file is under `root`."""
+    on the k-th call issued by a frame whose file is under `root` (exc `TORN`: the k-th write-mode
+    open succeeds and its first write is torn, see _TornFile)."""
 
     def __init__(self, root: str, k: int, exc: str = "ENOSPC", writes_only: bool = False) -> None:
         self.root = root.rstrip("/") + "/"
@@ -180,7 +210,8 @@ class IoShim:
         self.calls = 0
         self.fired = False
         self.fired_at: Optional[str] = None
-        self.writes_only = writes_only
+        self.writes_only = writes_only or exc == "TORN"
+        self.torn_site: Optional[str] = None
         self._open = builtins.open
         self._makedirs = os.makedirs
 
@@ -197,6 +228,9 @@ class IoShim:
             return
         self.calls += 1
         if self.calls == self.k:
+            if self.exc == "TORN":
+                self.torn_site = site
+                return
             self.fired = True
             self.fired_at = f"{what}@{site}"
             raise _make_exc(self.exc)
@@ -208,10 +242,14 @@ class IoShim:
             mode = args[1] if len(args) > 1 else kwargs.get("mode", "r")
             if not shim.writes_only or any(c in str(mode) for c in "wax+"):
                 shim._tick("open")
+                if shim.torn_site is not None:
+                    site, shim.torn_site = shim.torn_site, None
+                    return _TornFile(shim._open(*args, **kwargs), shim, site)
             return shim._open(*args, **kwargs)
 
         def makedirs_(*args: Any, **kwargs: Any) -> Any:
-            shim._tick("makedirs")
+            if shim.exc != "TORN":
+                shim._tick("makedirs")
             return shim._makedirs(*args, **kwargs)
 
         builtins.open = open_  # type: ignore
